@@ -59,6 +59,17 @@ func init() {
 		alphabet := strings.Fields(e.j.Str("alphabet", "S B D F C A R K W"))
 		keys := [][]byte{[]byte("0123456789abcdef"), []byte("0123456789abcdef01234567"), []byte("0123456789abcdef0123456789abcdef")}
 		caseNo := 0
+		// several data keys, then six master-key rotations in a row (each rewrites KEYREGISTRY in map
+		// order), then a further data-key rotation and writes: everything must stay readable
+		for i, mk := range keys {
+			mk := mk
+			s := strings.Fields("S A F A B F K K K K K K A S F A B F R")
+			e.do(fmt.Sprintf("rotations/mk%d", len(mk)), func() (c, d string) {
+				inBubble(e.t, func() { c, d = c23Run(e, mk, s) })
+				return
+			})
+			_ = i
+		}
 		var rec func(seq []string)
 		rec = func(seq []string) {
 			if e.stop() {
@@ -121,6 +132,18 @@ func c23Run(e *enumCtx, masterKey []byte, seq []string) (string, string) {
 	model := map[string]string{}
 	var needles []string
 	n := 0
+	// after every open: the next data-key id must lie above every id the registry holds (a re-issued
+	// id would make everything written under the old key of that id unreadable)
+	keyIDs := func() string {
+		db.registry.RLock()
+		defer db.registry.RUnlock()
+		for id := range db.registry.dataKeys {
+			if id > db.registry.nextKeyID {
+				return fmt.Sprintf("key registry holds data key %d but will hand out id %d next", id, db.registry.nextKeyID+1)
+			}
+		}
+		return ""
+	}
 	reopen := func(k []byte) string {
 		var err error
 		db, err = Open(c23Opts(dir, k))
@@ -129,7 +152,7 @@ func c23Run(e *enumCtx, masterKey []byte, seq []string) (string, string) {
 			return err.Error()
 		}
 		synctest.Wait()
-		return ""
+		return keyIDs()
 	}
 	kA, kB := "kEyA-0123456789ab", "kEyB-0123456789ab"
 	needles = append(needles, kA, kB)
